@@ -26,6 +26,7 @@ KEYS = ["k0", "k1", "k2"]
 FIELDS = ["f", "g"]
 STRS = ["a", "b", "{\"id\":7,\"n\":\"x\"}", "", "café", "7"]
 INTS = [0, 1, -3, 7, 41]
+LISTV = ["a", "b", "a", "7", 7, ""]
 TTLS = [0, 0, SHORT, MID, LONG]
 FLAGS = ["v_cas_zero_guard", "v_cas_ttl0_never", "v_setexp_checks_expiry", "v_setexp_ttl0_never", "v_setnx_after",
          "v_getexp_never0"]
@@ -77,10 +78,10 @@ def rop(rng, keys=KEYS):
         o["v"] = rscalar(rng) if rng.random() < 0.85 else [rscalar(rng) for _ in range(rng.randrange(3))]
         o["ttl"] = rng.choice(TTLS)
     elif kind == "setlist":
-        o["v"] = [rscalar(rng) for _ in range(rng.randrange(4))]
+        o["v"] = [rng.choice(LISTV) for _ in range(rng.randrange(5))]
         o["ttl"] = rng.choice(TTLS)
     elif kind in ("append", "remove"):
-        o["v"] = rscalar(rng)
+        o["v"] = rng.choice(LISTV)
     elif kind == "sethash":
         o["f"] = rng.choice(FIELDS)
         o["v"] = rscalar(rng)
@@ -123,7 +124,8 @@ def gen_focus(rng, mode="mem"):
         "c": lambda k: [{"op": "incrby", "k": k, "n": 7}],
     }
     seconds = {
-        "s": lambda k: [{"op": "cas", "k": k, "old": v, "v": "c", "ttl": ttl()}, {"op": "cas", "k": k, "old": None, "v": "c", "ttl": ttl()},
+        "s": lambda k: [{"op": "cas", "k": k, "old": v, "v": "c", "ttl": ttl()}, {"op": "cas", "k": k, "old": v, "v": v, "ttl": ttl()},
+                        {"op": "cas", "k": k, "old": None, "v": "c", "ttl": ttl()},
                         {"op": "cas", "k": k, "old": "zz", "v": "c", "ttl": ttl()}, {"op": "setnx", "k": k, "v": "c", "ttl": ttl()},
                         {"op": "set", "k": k, "v": "c", "ttl": ttl()}, {"op": "setexp", "k": k, "ttl": ttl()}, {"op": "getexp", "k": k}],
         "l": lambda k: [{"op": "append", "k": k, "v": "z"}, {"op": "remove", "k": k, "v": "a"}, {"op": "setlist", "k": k, "v": ["z"], "ttl": ttl()},
@@ -191,10 +193,10 @@ def gen_redis(rng):
             kind = rng.choice(["setlist", "getlist", "getlist", "append", "append", "remove", "del", "exists", "setexp"])
             o = {"op": kind, "k": "l0"}
             if kind == "setlist":
-                o["v"] = [rng.choice(RSTR) for _ in range(rng.randrange(4))]
+                o["v"] = [rng.choice(RSTR[:3]) for _ in range(rng.randrange(5))]
                 o["ttl"] = rng.choice(TTLS)
             elif kind in ("append", "remove"):
-                o["v"] = rng.choice(RSTR)
+                o["v"] = rng.choice(RSTR[:3])
             elif kind == "setexp":
                 o["ttl"] = rng.choice(TTLS)
         elif ty == "h":
@@ -465,7 +467,7 @@ def run(ctx, only_cases=None):
     else:
         cases = load_corpus()
         cases += [{"mode": "mem", "ops": ops, "scale": 1, "tol": MARGIN, "witness": f} for f, ops in WITNESSES]
-        n_mem, n_focus, n_redis, n_conc = (2500, 1500, 3000, 1500) if thorough else (260, 160, 400, 200)
+        n_mem, n_focus, n_redis, n_conc = (4000, 5000, 8000, 3000) if thorough else (400, 600, 900, 300)
         cases += [gen_mem(rng) for _ in range(n_mem)]
         cases += [gen_focus(rng) for _ in range(n_focus)]
         if thorough:
@@ -476,7 +478,7 @@ def run(ctx, only_cases=None):
         cases += [gen_conc(rng, race_ok is True, cas_ok) for _ in range(n_conc)]
     timed = [c for c in cases if c["mode"] != "conc"]
     conc = [c for c in cases if c["mode"] == "conc"]
-    env = {"VERIF_C13_PAR": "48" if thorough else "32"}
+    env = {"VERIF_C13_PAR": "64" if thorough else "40"}
     outs = vlib.run_harness(binary, timed, timeout=1500, env=env) if timed else []
     couts = vlib.run_harness(binary, conc, timeout=900) if conc else []
 
